@@ -27,6 +27,7 @@ type MAlloc struct {
 	Granted time.Duration
 	Granted0 time.Duration // lifetime granted by the Allocate itself (what a retransmission repeats)
 	Tx      [12]byte
+	Note    string // free use by harnesses (e.g. the attributes of the Allocate success response)
 	Perms   map[string]time.Time // peer IP -> expiry
 	Chans   map[uint16]*MChan
 }
